@@ -6,6 +6,7 @@
 mod frame;
 mod reader;
 mod util;
+mod writer;
 
 use std::io::{self, BufRead, Write};
 use std::panic::{self, AssertUnwindSafe};
@@ -47,11 +48,13 @@ fn main() {
 fn dispatch_impl(toks: &[&str]) -> String {
     None.or_else(|| frame::dispatch_impl(toks))
         .or_else(|| reader::dispatch_impl(toks))
+        .or_else(|| writer::dispatch_impl(toks))
         .unwrap_or_else(|| "bad-request".to_owned())
 }
 
 fn dispatch_prop(toks: &[&str]) -> String {
     None.or_else(|| frame::dispatch_prop(toks))
         .or_else(|| reader::dispatch_prop(toks))
+        .or_else(|| writer::dispatch_prop(toks))
         .unwrap_or_else(|| "SKIP no-oracle".to_owned())
 }
